@@ -3,8 +3,10 @@
   Property theorems only; helper lemmas live in LtVerif/Proofs/{H1Resp,HttpChunkEnc,NetWrite}.lean.
 
   Models: Model/H1Resp.lean (http_response_write_prepare, h1_send_headers, encoders, and the
-  RFC 9112 §6.3 reference `rfcFraming` / `rfcBody`), Model/HttpChunkEnc.lean (http_chunk.c),
-  Model/NetWrite.lean (network_write.c over a chunk queue with a write-result schedule).
+  reference side written from RFC 9112: `wireDecode` on the bytes, `rfcFraming` / `rfcBody` /
+  `rfcDechunk`), Model/HttpChunkEnc.lean (http_chunk.c), Model/NetWrite.lean (network_write.c over
+  a chunk queue with a write-result schedule).  What is NOT here: the order of responses on a
+  connection (connection state machine: end-to-end stream only).
 -/
 import LtVerif.Proofs.H1Resp
 import LtVerif.Proofs.NetWrite
@@ -47,6 +49,57 @@ theorem c04_framing_sound (d : RespIn) (date next : Bytes) (h : HandlerSane d) :
   have := h4 hc
   rw [hc] at this
   exact this
+
+/-- **What the client reads off the wire.**  Take the bytes lighttpd queues for a response (header
+    section, then body) and hand them to a client written from RFC 9112 (`wireDecode`: header section
+    up to the first empty line, status line, EVERY `name: value` line — so two differing
+    Content-Length fields would be seen and rejected — §6.3, §7.1).  For every well-behaved
+    descriptor with CR/LF-free, colon-free, pairwise different field names: either the client gets
+    status, fields and exactly the intended body and is left with exactly the bytes `next` of the
+    following response (self-delimiting: Content-Length true / chunked framed and terminated /
+    no body), or the message is close-delimited, the body is exactly the intended one and
+    keep-alive is off. -/
+theorem c04_wire_decode_exact (d : RespIn) (date next : Bytes) (h : HandlerSane d) (h1000 : d.status < 1000)
+    (hk : KeysOk d.hdrs) (hc : HdrsClean d.hdrs) (hd : NoCRLF date)
+    (ht : ∀ t, d.serverTag = some t → NoCRLF t) :
+    (∃ fs, wireDecode (decide (d.meth = .head)) ((respond d date).head ++ ((respond d date).body ++ next))
+        = some (d.status, fs, intendedBody d, next)) ∨
+    ((respond d date).keepAlive = false ∧
+      ∃ fs, wireDecode (decide (d.meth = .head)) ((respond d date).head ++ (respond d date).body)
+        = some (d.status, fs, intendedBody d, [])) := by
+  have core := framing_sound_core d date next h
+  unfold FramingGoal at core
+  simp only [] at core
+  obtain ⟨hst, _, _, hclose, hopen, _, _⟩ := core
+  have hso : StoreOk d.hdrs := ⟨h.noDup, hk⟩
+  have h100 : 100 ≤ d.status := by have := h.status; omega
+  by_cases hf : rfcFraming (decide (d.meth = .head)) (respond d date).status (respond d date).hdrs = .close
+  · right
+    obtain ⟨hka, hb⟩ := hclose hf
+    refine ⟨hka, (headFields (respond d date).hdrs date d.serverTag).map (fun f => (f.1, ltrim f.2)), ?_⟩
+    rw [wireDecode_head d date _ _ h100 h1000 hso hc hd ht, hb, hst]
+    rfl
+  · left
+    refine ⟨(headFields (respond d date).hdrs date d.serverTag).map (fun f => (f.1, ltrim f.2)), ?_⟩
+    rw [wireDecode_head d date _ _ h100 h1000 hso hc hd ht, hopen hf, hst]
+    rfl
+
+/-- **One entry per field name.**  Every operation of the response header store
+    (http_header_response_set / _unset / _insert / _append) and the whole response path keep the
+    store free of duplicate names (and names non-empty, colon-free), starting from the empty store:
+    the reachable-state invariant behind `HandlerSane.noDup` and `c04_wire_decode_exact`; in
+    particular lighttpd never emits two Content-Length fields or Content-Length next to its own
+    Transfer-Encoding. -/
+theorem c04_store_names_unique :
+    StoreOk [] ∧
+    (∀ hs k v, StoreOk hs → k ≠ [] ∧ colon ∉ k → StoreOk (Hdrs.set hs k v)) ∧
+    (∀ hs k, StoreOk hs → StoreOk (Hdrs.unset hs k)) ∧
+    (∀ hs k v, StoreOk hs → k ≠ [] ∧ colon ∉ k → StoreOk (Hdrs.insert hs k v)) ∧
+    (∀ hs k v, StoreOk hs → k ≠ [] ∧ colon ∉ k → StoreOk (Hdrs.append hs k v)) ∧
+    (∀ d date, StoreOk d.hdrs → StoreOk (respond d date).hdrs) :=
+  ⟨storeOk_nil, fun _ k v h hk => storeOk_set k v h hk, fun _ k h => storeOk_unset k h,
+   fun _ k v h hk => storeOk_insert k v h hk, fun _ k v h hk => storeOk_append k v h hk,
+   fun d date h => respond_storeOk d date h⟩
 
 /-- **Neither length nor chunking ⇒ connection close — unconditionally.**  For EVERY descriptor (no
     assumption on what the handler declared), if the final header fields carry no Content-Length,
@@ -91,39 +144,45 @@ theorem c04_bodiless_no_body (d : RespIn) (date : Bytes)
   unfold respond
   simp [hfin.1, hfin.2]
 
-/-- the header section of an interim (1xx) response is everything `send1xx` writes: it ends with
-    the empty line, and there is nothing after it -/
-theorem c04_interim_is_head_only (status : Nat) (hs : List Hdr) (h : HdrsClean hs) :
-    ∃ lines : List Bytes, (∀ l ∈ lines, NoCRLF l) ∧
+/-- **An interim (1xx) response is a header section and nothing else**, also when fields are
+    repeated (`FieldsOk`: what http_header_response_insert() builds): what h1_send_1xx() writes
+    splits at LF into CR-terminated, non-empty lines without stray CR/LF, then the empty line,
+    then nothing. -/
+theorem c04_interim_is_head_only (status : Nat) (hs : List Hdr) (h : FieldsOk hs) :
+    ∃ lines : List Bytes, (∀ l ∈ lines, NoCRLF l ∧ l ≠ []) ∧
       splitOn lf (send1xx status hs) = lines.map (· ++ [cr]) ++ [[cr], []] := by
-  refine ⟨_, ?_, splitOn_renderHead _ ?_⟩
-  · intro l hl
+  have hall : ∀ l ∈ (ofString "HTTP/1.1 " ++ statusText status)
+        :: (hs.filter fun h => !h.key.isEmpty && !h.value.isEmpty).map renderField,
+      ∃ ps : List Bytes, l ++ [cr, lf] = ps.flatMap (· ++ [cr, lf]) ∧ ∀ p ∈ ps, NoCRLF p ∧ p ≠ [] := by
+    intro l hl
     rcases List.mem_cons.mp hl with rfl | hl
-    · exact NoCRLF.append ⟨by decide, by decide⟩ (statusText_clean status)
+    · refine ⟨[ofString "HTTP/1.1 " ++ statusText status], by simp, ?_⟩
+      intro p hp
+      simp at hp
+      subst hp
+      have hpre : NoCRLF (ofString "HTTP/1.1 ") := ⟨by decide, by decide⟩
+      exact ⟨hpre.append (statusText_clean status), by simp [ofString]⟩
     · obtain ⟨x, hx, rfl⟩ := List.mem_map.mp hl
       have hx' := (List.mem_filter.mp hx).1
-      unfold renderField
-      exact ((h x hx').1.append ⟨by decide, by decide⟩).append (h x hx').2
-  · intro l hl
-    rcases List.mem_cons.mp hl with rfl | hl
-    · exact (NoCRLF.append ⟨by decide, by decide⟩ (statusText_clean status)).2
-    · obtain ⟨x, hx, rfl⟩ := List.mem_map.mp hl
-      have hx' := (List.mem_filter.mp hx).1
-      unfold renderField
-      exact (((h x hx').1.append ⟨by decide, by decide⟩).append (h x hx').2).2
+      exact (h x hx').2.pieces (h x hx').1
+  obtain ⟨phys, hphys, hP⟩ := lines_pieces (fun p => NoCRLF p ∧ p ≠ []) _ hall
+  refine ⟨phys, hP, ?_⟩
+  have : send1xx status hs = renderHead phys := by
+    unfold send1xx renderHead; rw [hphys]
+  rw [this]
+  exact splitOn_renderHead phys (fun l hl => (hP l hl).1.2)
 
 /-! ## chunked bodies -/
 
-/-- **Chunked round trip.**  Whatever pieces a handler appends with http_chunk_append_*() (empty
-    pieces included) and closes with http_chunk_close(), the RFC 9112 §7.1 decoder automaton
-    (Model/H1Chunked: any limits-free configuration) ends in its final state having produced
-    exactly the concatenation of the pieces, consumed exactly the encoding (`after` counts the
-    bytes `next` that follow it) and seen no error. -/
-theorem c04_chunked_roundtrip (cfg : CkCfg) (hcfg : cfg.maxSize = 0) (hmf : cfg.maxField ≥ 1026)
-    (pieces : List Bytes) (next : Bytes) (hsz : ∀ p ∈ pieces, chunkSizeOk p.length) :
-    ckFeed cfg {} (chunkStream true pieces true ++ next)
-      = { mode := .done, out := pieces.flatten, ka := true, after := next.length } := by
-  simpa using ckFeed_chunkStream cfg hcfg hmf next pieces [] hsz
+/-- **Chunked round trip against an independent decoder.**  Whatever pieces a handler appends with
+    http_chunk_append_*() (empty pieces included) and closes with http_chunk_close(), the RFC 9112
+    §7.1 reference decoder `rfcDechunk` (written from the grammar: hex size, optional extension up
+    to CRLF, data, CRLF, last-chunk, trailer section) returns exactly the concatenation of the
+    pieces and exactly the bytes `next` that follow the encoding. -/
+theorem c04_chunked_roundtrip (pieces : List Bytes) (next : Bytes) (hsz : ∀ p ∈ pieces, chunkSizeOk p.length) :
+    rfcBody .chunked (chunkStream true pieces true ++ next) = some (pieces.flatten, next) := by
+  have := rfcBody_chunked [] pieces next (by unfold chunkSizeOk; decide) hsz
+  simpa [chunkFirst] using this
 
 /-- the same including the first chunk that http_response_write_prepare() wraps around what was
     already queued when it switched the response to chunked (its size line has leading zeros) -/
@@ -132,6 +191,53 @@ theorem c04_chunked_roundtrip_with_first (queued : Bytes) (pieces : List Bytes) 
     rfcBody .chunked (chunkFirst queued ++ chunkStream true pieces true ++ next)
       = some (queued ++ pieces.flatten, next) :=
   rfcBody_chunked queued pieces next hq hsz
+
+/-- second opinion: lighttpd's own request-side decoder automaton (Model/H1Chunked, validated
+    against h1_chunked() by C01) reads the same encoding back the same way -/
+theorem c04_chunked_roundtrip_own_decoder (cfg : CkCfg) (hcfg : cfg.maxSize = 0) (hmf : cfg.maxField ≥ 1026)
+    (pieces : List Bytes) (next : Bytes) (hsz : ∀ p ∈ pieces, chunkSizeOk p.length) :
+    ckFeed cfg {} (chunkStream true pieces true ++ next)
+      = { mode := .done, out := pieces.flatten, ka := true, after := next.length } := by
+  simpa using ckFeed_chunkStream cfg hcfg hmf next pieces [] hsz
+
+/-- **The one place where an announced chunk length can be false is reported as an error.**
+    http_chunk_append_file_fd/_ref() read files of up to 32 KiB into memory for a chunked response
+    (http_chunk_append_read_fd_range): the size line announces `sz`; if the file has shrunk since it
+    was sized, fewer bytes follow.  The model returns rc = -1 exactly then, and whenever rc = 0 what
+    was queued decodes to the first `sz` bytes of the file. -/
+theorem c04_short_read_reported (content : Bytes) (sz : Nat) (hsz : chunkSizeOk sz) :
+    ((chunkAppendWholeFile true content sz).2 = 0 ↔ (sz ≤ content.length ∨ sz > 32768)) ∧
+    ((chunkAppendWholeFile true content sz).2 = 0 → sz ≤ content.length →
+      rfcBody .chunked ((chunkAppendWholeFile true content sz).1 ++ chunkClose true)
+        = some (content.take sz, [])) := by
+  have hlen : ((content.take sz).length = sz) ↔ sz ≤ content.length := by
+    simp only [List.length_take]; omega
+  constructor
+  · unfold chunkAppendWholeFile chunkAppendReadFd
+    by_cases hbig : sz > 32768
+    · simp [hbig]
+    · by_cases h0 : sz = 0
+      · simp [hbig, h0]
+      · simp only [hbig, decide_false, Bool.not_true, Bool.or_self, Bool.false_eq_true, if_false, h0,
+          List.drop_zero, hlen, or_false]
+        split <;> simp_all
+  · intro _ hle
+    have htake : (content.take sz).length = sz := hlen.mpr hle
+    have hsz' : chunkSizeOk (content.take sz).length := by rw [htake]; exact hsz
+    have hrt := c04_chunked_roundtrip [content.take sz] [] (by intro p hp; simp at hp; subst hp; exact hsz')
+    have hq : (chunkAppendWholeFile true content sz).1 = chunkAppend true (content.take sz) := by
+      unfold chunkAppendWholeFile chunkAppendReadFd
+      by_cases hbig : sz > 32768
+      · simp [hbig]
+      · by_cases h0 : sz = 0
+        · subst h0; simp [chunkAppend]
+        · have hne : (content.take sz).isEmpty = false := by
+            cases hh : content.take sz with
+            | nil => rw [hh] at htake; simp at htake; omega
+            | cons _ _ => rfl
+          simp [hbig, h0, chunkAppend, hne, htake]
+    rw [hq]
+    simpa [chunkStream] using hrt
 
 /-- every chunk-size line the encoder writes is accepted by the decoder with exactly that size -/
 theorem c04_chunk_size_line_exact (n : Nat) (h : chunkSizeOk n) :
@@ -185,6 +291,49 @@ theorem c04_partial_write_exact (b : Backend) (maxBytes : Nat) (q : Cq) (sched :
   intro he
   rw [he] at hb
   simpa [cqFlat] using hb
+
+/-- **Progress.**  If the socket keeps accepting at least one byte per call (every answer `ok k`,
+    k > 0) and there are at least as many answers as queued bytes plus chunks, the writer empties
+    the queue, reports no error, and the socket has received exactly the message.  (The bound is
+    generous: one answer per byte; it makes the statement independent of `max_bytes`, the iovec
+    limit and the 16 KiB read buffer.) -/
+theorem c04_write_progress (b : Backend) (maxBytes : Nat) (q : Cq) (sched : List WrRes) (h : CqWF q)
+    (hmax : 0 < maxBytes) (hok : AllOkPos sched) (hlen : cqLen q + q.length ≤ sched.length) :
+    (drive b maxBytes { q := q, sched := sched }).1 = 0 ∧
+    (drive b maxBytes { q := q, sched := sched }).2.2.q = [] ∧
+    (drive b maxBytes { q := q, sched := sched }).2.2.acc = cqFlat q := by
+  have hp := driveGo_prog b maxBytes hmax (sched.length + q.length + 2) 0 { q := q, sched := sched }
+    ⟨h, hok, by unfold meas; exact hlen⟩ (by unfold meas; simp only []; omega)
+  have hx := c04_partial_write_exact b maxBytes q sched h
+  simp only [] at hx
+  exact ⟨hp.1, hp.2, hx.2.2 hp.2⟩
+
+/-- **EINTR, EAGAIN and short counts never end a response.**  Under every schedule that consists
+    only of retryable answers (non-empty acceptances, EAGAIN, EINTR — in any order, any number) no
+    call of the backend reports an error (rc = 0 throughout), so by `c04_partial_write_exact` the
+    response stays intact and continues from where it stopped. -/
+theorem c04_retryable_never_aborts (b : Backend) (maxBytes : Nat) (q : Cq) (sched : List WrRes) (h : CqWF q)
+    (hmax : 0 < maxBytes) (hr : ∀ r ∈ sched, Retryable r) :
+    (drive b maxBytes { q := q, sched := sched }).1 = 0 :=
+  driveGo_retry b maxBytes hmax _ 0 { q := q, sched := sched } h hr
+
+/-- **Composition: the response on the socket.**  Queue the message `respond` produces (header
+    section ++ body) in ANY chunk layout and run the writer under ANY schedule: what the socket has
+    accepted is always a prefix of that message, and under the progress conditions it is the
+    message — the bytes `c04_wire_decode_exact` reasons about are the bytes the client receives. -/
+theorem c04_response_reaches_socket (d : RespIn) (date : Bytes) (b : Backend) (maxBytes : Nat) (q : Cq)
+    (sched : List WrRes) (hq : cqFlat q = (respond d date).head ++ (respond d date).body) (h : CqWF q) :
+    (∃ rest, (respond d date).head ++ (respond d date).body
+        = (drive b maxBytes { q := q, sched := sched }).2.2.acc ++ rest) ∧
+    (0 < maxBytes → AllOkPos sched → cqLen q + q.length ≤ sched.length →
+      (drive b maxBytes { q := q, sched := sched }).2.2.acc
+        = (respond d date).head ++ (respond d date).body) := by
+  have hx := c04_partial_write_exact b maxBytes q sched h
+  simp only [] at hx
+  refine ⟨⟨_, by rw [← hq]; exact hx.1.symm⟩, ?_⟩
+  intro hmax hok hlen
+  rw [← hq]
+  exact (c04_write_progress b maxBytes q sched h hmax hok hlen).2.2
 
 /-! ## no CR / LF from request-derived data -/
 
@@ -255,6 +404,29 @@ theorem c04_header_section_exact (d : RespIn) (date : Bytes) (hc : HdrsClean d.h
   rw [this]
   exact splitOn_renderHead _ (fun l hl => (hclean l hl).2)
 
+/-- **The same with repeated fields** (Set-Cookie, Link, merged trailers: values of the form
+    `v\r\nName: v2` as http_header_response_insert() builds them, `FieldsOk`): the header section
+    still splits at LF into CR-terminated, non-empty lines without stray CR or LF, then the empty
+    line, then nothing — the first empty line is the end of the header section. -/
+theorem c04_header_section_lines (d : RespIn) (date : Bytes) (hso : StoreOk d.hdrs) (hf : FieldsOk d.hdrs)
+    (hd : NoCRLF date) (ht : ∀ t, d.serverTag = some t → NoCRLF t) :
+    ∃ lines : List Bytes, (∀ l ∈ lines, NoCRLF l ∧ l ≠ []) ∧
+      splitOn lf (respond d date).head = lines.map (· ++ [cr]) ++ [[cr], []] := by
+  obtain ⟨phys, hphys, hP⟩ := headLines_pieces d.ver11 (respond d date).status (respond d date).hdrs date
+    d.serverTag (respond_fieldsOk d date hso hf) hd ht
+  refine ⟨phys, hP, ?_⟩
+  have : (respond d date).head = renderHead phys := hphys
+  rw [this]
+  exact splitOn_renderHead phys (fun l hl => (hP l hl).1.2)
+
+/-- `FieldsOk` is what the store operations really guarantee: starting from clean fields, inserting
+    a repeated field with a clean name and value keeps it (so `c04_header_section_lines` applies to
+    every store built by set / insert / append of CR/LF-free arguments). -/
+theorem c04_insert_keeps_fields_ok (hs : List Hdr) (k v : Bytes) (hso : StoreOk hs) (hf : FieldsOk hs)
+    (hk : NoCRLF k) (hne : k ≠ []) (hv : NoCRLF v) :
+    FieldsOk (Hdrs.insert hs k v) ∧ FieldsOk (Hdrs.set hs k v) ∧ FieldsOk (Hdrs.append hs k v) :=
+  ⟨fieldsOk_insert k v hf hso.1 hk hne hv, fieldsOk_set k v hf hk hv, fieldsOk_append k v hf hso.1 hk hv⟩
+
 /-! ## non-vacuity: concrete instances -/
 
 /-- a static-file style response: finished, handler-declared Content-Length -/
@@ -266,12 +438,12 @@ def exStream : RespIn :=
   { status := 200, finished := false, queued := ofString "he", pieces := [ofString "llo", [], ofString "!"] }
 
 example : HandlerSane exStatic :=
-  ⟨by decide, by decide, by decide, by decide,
+  ⟨by decide, by simp [exStatic, Hdrs.NoDup], by decide, by decide, by decide,
    by intro _ _ v hv _; simp [exStatic, Hdrs.get, Hdrs.sameName, eqIcase] at hv; obtain ⟨_, rfl⟩ := hv; decide,
    rfl, ⟨by unfold chunkSizeOk; decide, by intro p hp; simp [exStatic] at hp⟩⟩
 
 example : HandlerSane exStream :=
-  ⟨by decide, by decide, by decide, by decide,
+  ⟨by decide, by simp [exStream, Hdrs.NoDup], by decide, by decide, by decide,
    by intro _ _ v hv; simp [exStream, Hdrs.get] at hv,
    rfl, ⟨by unfold chunkSizeOk; decide,
          by intro p hp; simp [exStream] at hp; rcases hp with rfl | rfl | rfl <;> (unfold chunkSizeOk; decide)⟩⟩
@@ -299,6 +471,21 @@ example : (drive .sendfile 262144 { q := exQ, sched := [.ok 5, .eagain, .ok 100,
     = ofString "HTTP/1.1 200 OK\r\n\r\n2345678ail" := by decide
 example : encodeStr 0 (ofString "/a b\r\nSet-Cookie: x") = ofString "/a%20b%0D%0ASet-Cookie%3A%20x" := by decide
 example : urldecodePath (ofString "/a%0d%0aX:%20y") = ofString "/a__X: y" := by decide
+example : wireDecode false ((respond exStatic (ofString "x")).head ++ (respond exStatic (ofString "x")).body ++ ofString "HTTP")
+    = some (200, [(ofString "Content-Length", ofString "5"), (ofString "Date", ofString "x")], ofString "hello", ofString "HTTP") := by
+  decide
+example : wireDecode false (ofString "HTTP/1.1 200 OK\r\nContent-Length: 5\r\ncontent-length: 7\r\n\r\nhello") = none := by
+  decide
+example : rfcBody .chunked (ofString "3;x=y\r\nabc\r\n0\r\nT: v\r\n\r\nrest") = some (ofString "abc", ofString "rest") := by
+  decide
+example : (chunkAppendWholeFile true (ofString "abc") 5).2 = -1 := by decide
+example : FieldsOk (Hdrs.insert [⟨ofString "Set-Cookie", ofString "a=1"⟩] (ofString "set-cookie") (ofString "b=2")) :=
+  (c04_insert_keeps_fields_ok _ _ _ ⟨by simp [Hdrs.NoDup], by intro h hh; simp at hh; subst hh; decide⟩
+    (fieldsOk_of_clean (by intro h hh; simp at hh; subst hh; exact ⟨⟨by decide, by decide⟩, ⟨by decide, by decide⟩⟩))
+    ⟨by decide, by decide⟩ (by decide) ⟨by decide, by decide⟩).1
+example : AllOkPos [.ok 5, .ok 1] ∧ Retryable .eintr ∧ ¬ Retryable .epipe := by
+  refine ⟨?_, trivial, fun h => h⟩
+  intro r hr; simp at hr; rcases hr with rfl | rfl <;> exact ⟨_, rfl, by decide⟩
 example : HdrsClean exStatic.hdrs := by
   intro h hh
   simp [exStatic] at hh
